@@ -707,3 +707,31 @@ def driver_outcomes(ctx, prog):
         ok = idx_rows == {("MetComma",): ("Sub(%s,1)" % OFF, ["MetColon"]), ("MetEndOfString",): (OFF, ["MetColon"])}
         ctx.ob(R, "%s: success exactly when field 1 stopped at ':' and field 2 at ',' (index = offset-1) or at the end (index = offset)" % f.short, ok, "%s" % idx_rows, f.loc())
     ctx.floor(R, n, 1, "template expansions of the parse driver")
+
+
+def initial_values(ctx, prog):
+    """the parser's counters (stored length, run length, consumed bytes, block size accumulator) start at 0 and are reset to 0 only; the
+    run detector's "previous symbol" starts at the sentinel BASE64_INVALID.  A counter that starts at 1 shifts every capacity and position
+    the tables speak about."""
+    R = "SA-GUARD"
+    n = 0
+    for suffix in ("hash::algorithms::parse_block_hash_from_bytes", "hash::algorithms::parse_block_size_from_bytes"):
+        f = prog.fn(suffix)
+        ctx.visit(f, weak=True)
+        sy = Sym(f)
+        bad = []
+        for l, ds in f.defs.items():
+            nm = f.locals[l]["name"]
+            ty = f.locals[l]["ty"]
+            if not nm or ty not in ("usize", "u8", "u32", "u64") or l <= f.argc or len(ds) < 2:
+                continue
+            for (b, _i, k, x) in ds:
+                if k != "rv":
+                    continue
+                v = strip(sy.rvalue(x))
+                if v[0] == "const" and isinstance(v[1], int):
+                    n += 1
+                    if v[1] != 0 and not (v[2] or "").endswith(("BASE64_INVALID", "MAX_SEQUENCE_SIZE")):
+                        bad.append("%s := %s" % (nm, v[1]))
+        ctx.ob(R, "%s: every constant given to a counter is 0 (excepted: the previous-symbol sentinel BASE64_INVALID and the run counter saturating at MAX_SEQUENCE_SIZE, by name)" % f.short, not bad, "; ".join(bad) or "constants are 0 / sentinel", f.loc())
+    ctx.floor(R, n, 4, "constant definitions of parser counters")
